@@ -57,7 +57,7 @@ Accepts(e) ==
 
 TraceMatch ==
   /\ Trace[l].ev = "Match"
-  /\ Accepts(Trace[l])
+  /\ Accepts(Trace[l]) = TRUE
   /\ last' = [e4 |-> Eval4(Trace[l].st, Trace[l].data), shape |-> Shape4(Trace[l].st, Trace[l].data)]
 
 TraceNext == l <= Len(Trace) /\ l' = l + 1 /\ TraceMatch
